@@ -38,5 +38,13 @@ pub fn classify(stderr: &str) -> String {
             }
         }
     }
+    // tool noise / harness-only reports are not attributable to the arena: the caller maps
+    // "unknown…" to INCONCLUSIVE instead of a violation
+    if stderr.contains("stack-use-after-scope") {
+        return "unknown:asan-stack-use-after-scope (known false positive of scope instrumentation in optimised Rust)".to_string();
+    }
+    if kind == "miri:ub" && frames.is_empty() {
+        return "unknown:miri-ub-in-harness-frames-only".to_string();
+    }
     format!("{}:{}", kind, frames.join("+"))
 }
